@@ -464,6 +464,55 @@ def render_table(ctx: Ctx, I: Interp) -> None:
                           witness="Foo('a', div('b'), 'c')")
         if not any_rec:
             break
+    if "children" not in found:
+        # the child loop written as a comprehension: [_render_react_js(c, indent + 1, eol) for c in x.children if ...]
+        cfg3 = Config()
+        cfg3.opaque_all = True
+        cfg3.coarse_counts = True
+        for l in I.run_function(JSX, "_render_react_js", mk_for({"JSXTAG", "TAG"}), cfg3):
+            x, ind, eol = l.run.__dict__["o"]
+            maps = []
+            seen_ids = set()
+
+            def _scan(v: Any, depth: int = 0) -> None:
+                if depth > 6 or id(v) in seen_ids:
+                    return
+                seen_ids.add(id(v))
+                if isinstance(v, SList):
+                    if v.mode == "map":
+                        maps.append(v)
+                        _scan(v.base, depth + 1)
+                        _scan(v.elt, depth + 1)
+                    for i_ in v.items:
+                        _scan(i_, depth + 1)
+                if isinstance(v, SStr):
+                    for f_ in v.frags:
+                        if isinstance(f_.b, dict):
+                            for vv in f_.b.values():
+                                _scan(vv, depth + 1)
+            _scan(l.value)
+            for e_ in l.effects:
+                for vv in ([e_.value] if not isinstance(e_.value, list) else e_.value):
+                    _scan(vv)
+            for v_ in (getattr(l, "env", None) or {}).values():
+                _scan(v_)
+            for m_ in maps:
+                b_ = m_.base
+                if not (isinstance(b_, SObj) and b_.meta.get("attr_of", (None, None))[0] is x and b_.meta["attr_of"][1] == "children"):
+                    continue
+                found.add("children")
+                c_ = m_.elt.__dict__.get("call") if isinstance(m_.elt, SOpaque) else (m_.elt.meta.get("call") if isinstance(m_.elt, SObj) else None)
+                if c_ is None and isinstance(m_.elt, SStr) and len(m_.elt.frags) == 1 and m_.elt.frags[0].kind == "OP" and isinstance(m_.elt.frags[0].b, dict):
+                    c_ = dict(m_.elt.frags[0].b, func=type("F", (), {"qual": str(m_.elt.frags[0].a[1])})())
+                args_ = (c_ or {}).get("args") or []
+                ok = c_ is not None and getattr(c_.get("func"), "qual", "") == "_render_react_js" and len(args_) >= 3 and args_[0] is m_.var and args_[2] is eol
+                ctx.check(bool(ok), "C20.js", "each child is rendered once, in order, by a recursive call", where, f"children comprehension element {short(m_.elt)}",
+                          "a child of a tag/component is not rendered exactly once by the recursive call: children are dropped, duplicated or cut short")
+                pk = m_.__dict__.get("pass_kinds")
+                leak = sorted(set(pk if pk is not None else META_KINDS) & set(META_KINDS))
+                ctx.check(not leak, "C20.js", "metadata children are left out of the child expressions", where, f"kinds passing the filter include {leak}",
+                          f"a metadata child of kind {leak} is kept in the list of child expressions: its empty rendering is joined in with a separator "
+                          f"(a stray ', ' entry in React.createElement)", witness="Foo(MetadataNode(), 'a')")
     ctx.require(found == {"props", "children"}, f"_render_react_js loops found: {sorted(found)}")
     ctx.min_count("_render_react_js paths with props or children", n_loop_paths, 2)
 
@@ -566,3 +615,7 @@ def check(ctx: Ctx) -> None:
     serialize_table(ctx, I)
     render_table(ctx, I)
     init_allowlist(ctx, I)
+    # children however they were added: append / extend forward to the child list
+    from .c14 import _delegates
+    for meth in ("append", "extend"):
+        _delegates(ctx, I, meth, cls="JSXTag", mod=JSX, kind="JSXTAG", field="children", rule="C20.children")
